@@ -1132,6 +1132,11 @@ func (env *SpecEnv) callExpr(e *SExpr) SVal {
 			vc.needBytes, rs = true, &Sort{K: SOpaque, Name: "Bytes"}
 		case "tohash32":
 			vc.needBytes, vc.needToHash, rs = true, true, &Sort{K: SOpaque, Name: "Bytes"}
+		case "timedec":
+			if vc.timeSort == nil {
+				env.fail("@timedec: no time.Time has been decoded in this function")
+			}
+			vc.needBytes, rs = true, vc.timeSort
 		case "select":
 			if len(as) == 2 && as[0].T != nil && as[0].T.K == SArray {
 				return SVal{T: tSelect(as[0], as[1])}
